@@ -98,7 +98,7 @@ func describedNoteProblems(m map[string]any, root theory.Note, sharp bool) []str
 
 func checkC15(c *core.Ctx) {
 	maxLen := c.N(5, 6)
-	c.Rule(fmt.Sprintf("library level (in-process worker linking note.Degree): numbers 0..64 x 7 qualities exhaustively - existence, size, String/ParseDegree and YAML round trip - and every string over {b,#,0-9} up to length %d; "+
+	c.Rule(fmt.Sprintf("library level (in-process worker linking note.Degree): numbers 0..300 x 7 qualities exhaustively - existence, size, String/ParseDegree and YAML round trip - and every string over {b,#,0-9} up to length %d; "+
 		"CLI: `info attr describe` for 21 roots x every built-in attribute x both accidental preferences, `info chord describe` for 21 roots x 46 dictionary keys x 2, and a generated dictionary naming all intervals up to 64 (incl. doubly altered) described from 21 roots; "+
 		"sizes from the textbook formula, applied note = root + interval as pitch, natural-first spelling; non-trivial = existing interval other than a perfect unison whose size and round trip were compared, or a described note with an accidental or an octave offset; distinct by case", maxLen))
 	c.Assume("theory.Size/Exists (formula of the property statement)", "theory.ParseNotation for canonical notation", "yaml.v3 as reader")
@@ -109,7 +109,7 @@ func checkC15(c *core.Ctx) {
 		c.Extra("library_level", "skipped: worker does not build against the current tree")
 	} else {
 		c.StreamSeq("degrees", 1, func(_ int, _ *rand.Rand) {
-			r, lines := runWorker(c, nil, 60, "degrees", "64")
+			r, lines := runWorker(c, nil, 60, "degrees", "300")
 			if infra(c, r) {
 				return
 			}
@@ -256,8 +256,11 @@ func checkC15(c *core.Ctx) {
 		at := attrs[(j/len(roots))%len(attrs)]
 		sharp := j/(len(roots)*len(attrs)) == 1
 		args := []string{"info", "attr", "describe", "-t", at, "-r", root.String()}
+		// every spelling of the boolean preference
 		if sharp {
-			args = append(args, "-s")
+			args = append(args, []string{"-s", "--precedeSharp", "--precedeSharp=true", "-s=true", "-s=1"}[j%5])
+		} else if j%3 == 0 {
+			args = append(args, []string{"--precedeSharp=false", "-s=false", "-s=0"}[(j/3)%3])
 		}
 		res := run(c, nil, args...)
 		c.Eval(1)
